@@ -1,6 +1,7 @@
 """C17 - recognition errors point at the offending place (the weak claim: every message carries a position, keys are named)."""
 from . import shared as S
 from . import errors as E
+from . import helpers_rules as H
 
 META = {
     'level': 'other',
@@ -26,3 +27,5 @@ def run(ctx):
     E.r17_3_real_marks(ctx)
     S.r17_4_no_silent_reject(ctx)
     E.r17_5_error_of_the_empty_verdict(ctx)
+    E.r17_6_cited_node(ctx)
+    H.r17_7_set_value_marks(ctx)
